@@ -52,6 +52,22 @@ static int run_case(int which) {
       std::move(p0).Set(11);
       got = std::move(f).Get().Ok(); want = 11;
     } break;
+    case 7: {  // Task::ToFuture(e2): the head (and only it) is submitted to e2, which the chain inherits; the executor Schedule named receives nothing
+      auto other = yaclib::MakeManual();
+      auto& m2 = static_cast<yaclib::ManualExecutor&>(*other);
+      auto f = yaclib::Schedule(*manual, [] { return 1; }).Then([](int x) { return x + 1; }).Then([](int x) { return x + 1; }).ToFuture(*other);
+      std::size_t on_e1 = m.Drain(), on_e2 = m2.Drain();
+      if (on_e1 != 0 || on_e2 != 3) { std::fprintf(stderr, "case 7: steps ran on the wrong executor (named at Schedule: %zu, named at ToFuture: %zu, want 0 and 3)\n", on_e1, on_e2); return 1; }
+      got = std::move(f).Get().Ok(); want = 3;
+    } break;
+    case 8: {  // an explicit executor of a later step survives the start
+      auto other = yaclib::MakeManual();
+      auto& m2 = static_cast<yaclib::ManualExecutor&>(*other);
+      auto f = yaclib::Schedule([] { return 1; }).Then(*manual, [](int x) { return x + 1; }).ToFuture(*other);
+      std::size_t a = m2.Drain(), b = m.Drain();
+      if (a != 1 || b != 1) { std::fprintf(stderr, "case 8: head on the start executor: %zu (want 1), Then(e, g) on e: %zu (want 1)\n", a, b); return 1; }
+      got = std::move(f).Get().Ok(); want = 2;
+    } break;
     default: return 0;
   }
   std::fprintf(stderr, "case %d: got %d, want %d\n", which, got, want);
@@ -61,6 +77,6 @@ static int run_case(int which) {
 int main(int argc, char** argv) {
   if (argc > 1 && std::strcmp(argv[1], "all") != 0) return run_case(std::atoi(argv[1]));
   int bad = 0;
-  for (int i = 0; i <= 6; ++i) bad |= run_case(i);
+  for (int i = 0; i <= 8; ++i) bad |= run_case(i);
   return bad;
 }
